@@ -173,6 +173,14 @@ Theorem timeout_check_spacing :
 Proof. exact timeout_check_spacing_proof. Qed.
 Print Assumptions timeout_check_spacing.
 
+(* once the VM's test sees the deadline passed (result = ERROR_SCAN_TIMEOUT, stop = true) no further instruction executes:
+   the test is the last statement of the body of `while (!stop)`, after the switch.  (Were it before the opcode fetch, one more
+   instruction would run, and OP_ITER_NEXT / OP_CALL / OP_MATCHES / OP_IMPORT overwrite result or stop.)  The position is
+   regenerated from exec.c. *)
+Theorem timeout_stops_at_once : vm_instrs_after_deadline_test = 0 /\ vm_deadline_test_after_switch = true.
+Proof. exact vm_deadline_stops_at_once_proof. Qed.
+Print Assumptions timeout_stops_at_once.
+
 (* the deadline itself: yr_scanner_set_timeout (through which yr_rules_scan_* and `yara -a` pass as well) turns every number
    of seconds its `int` parameter can carry into exactly that many nanoseconds, the unit of the two deadline tests; the
    expression is regenerated from scanner.c with its C integer types and wrap-around explicit *)
